@@ -101,7 +101,17 @@ ROUND7 = {
 }
 
 
+ROUND8 = {
+    "C05": " The identification hands the basis-function sign (and its other options) to every helper that repeats them with the same default.",
+    "C09": " A limit that passes min / max / clip between run_params and the criterion leaves the binding undecided (the admissible range is not judged).",
+    "C10": " Orders iterated as a prepared list of columns or (previous, current) pairs: the order left out is column 0 by value, not the first element of the list.",
+    "C13": " SD_est and what it calls change none of their array arguments in place (also through reshape views).",
+    "C17": " The propagation changes no memoised selection / commutation matrix in place.",
+    "C19": " A table the validation normalises (fillna, reindex, zero-basing) is returned in that form, not read again raw from the dictionary.",
+}
+
+
 def register(claim, na):
     for pid, (tech, text) in CLAIMS.items():
-        text = text + ROUND7.get(pid, "")
+        text = text + ROUND7.get(pid, "") + ROUND8.get(pid, "")
         claim(pid, tech, STRUCT + text, f"DESIGN.md 4 ({pid})")
